@@ -163,7 +163,7 @@ def _one(item):
 
 def main(tier):
     ck = vcheck.Check("C04", "model_checking", tier)
-    runs = [["bfs", "full", 3, 10], ["bfs", "full", 4, 9]] if tier == "thorough" else [["bfs", "full", 3, 8]]
+    runs = ([["bfs", "full", 3, 10], ["bfs", "full", 4, 9]] + simlevel.HISTORY_RUNS_THOROUGH) if tier == "thorough" else ([["bfs", "full", 3, 8]] + simlevel.HISTORY_RUNS_QUICK)
     res = simlevel.run_all(runs)
     simlevel.report(ck, res, {"C04"})
     for d in res:
